@@ -234,13 +234,15 @@ class Endpoint:
                 raw = bytes(holder.pack())
             except Exception as e:  # noqa: BLE001
                 raw, err = None, f"{type(e).__name__}: {e}"
-            use = enq_raw if enq_raw is not None else raw
+            # what a real user sends is what the PDU packs to when it is retrieved; the enqueue-time snapshot is only kept to
+            # detect PDUs that were changed between being queued and being retrieved (aliasing of mutable handler state)
+            use = raw
             d = wire.describe(use) if use is not None else {"kind": "?", "error": err}
             ev = self.log.add(
                 "tx",
                 self.side,
                 raw=use,
-                raw_at_retrieval=raw,
+                raw_at_enqueue=enq_raw,
                 mutated_after_enqueue=(enq_raw is not None and raw is not None and enq_raw != raw),
                 enq_seq=holder.__dict__.get("_enq_seq"),
                 d=d,
